@@ -6,7 +6,6 @@ import (
 
 	"mvdan.cc/sh/v3/expand"
 
-	"verif/mc/enum"
 	"verif/mc/oracle"
 	"verif/mc/vc"
 )
@@ -78,6 +77,17 @@ func c23Image(ifs string) (fwd, back *strings.Replacer) {
 		return nil, nil
 	}
 	return strings.NewReplacer(f...), strings.NewReplacer(b...)
+}
+
+// c23StringsN calls f with every concatenation of exactly n items of alphabet.
+func c23StringsN(alphabet []string, n int, prefix string, f func(string)) {
+	if n == 0 {
+		f(prefix)
+		return
+	}
+	for _, a := range alphabet {
+		c23StringsN(alphabet, n-1, prefix+a, f)
+	}
 }
 
 func c23IsASCII(s string) bool {
@@ -210,22 +220,27 @@ func c23(c *vc.Ctx) {
 		}
 	}
 	complete := vc.RunBatch(c, 3000, func(emit func(c23Case)) {
-		// the wide part first: it is the smaller one, so a budget-limited run
-		// still covers it completely
-		enum.Strings(c23WideSymbols, wideLen, func(line string) {
-			ascii := c23IsASCII(line)
-			for _, ifs := range c23WideIFS {
-				if ascii && ifs < c23NMainIFS {
-					continue // in the main part (core symbols and wideLen are within its bounds)
+		// by line length, so that a budget-limited run covers the short
+		// lines of both parts
+		for n := 0; n <= maxLen; n++ {
+			c23StringsN(c23Symbols, n, "", func(line string) {
+				for ifs := 0; ifs < c23NMainIFS; ifs++ {
+					emitLine(emit, line, ifs)
 				}
-				emitLine(emit, line, ifs)
+			})
+			if n > wideLen {
+				continue
 			}
-		})
-		enum.Strings(c23Symbols, maxLen, func(line string) {
-			for ifs := 0; ifs < c23NMainIFS; ifs++ {
-				emitLine(emit, line, ifs)
-			}
-		})
+			c23StringsN(c23WideSymbols, n, "", func(line string) {
+				ascii := c23IsASCII(line)
+				for _, ifs := range c23WideIFS {
+					if ascii && ifs < c23NMainIFS {
+						continue // in the main part (core symbols and wideLen are within its bounds)
+					}
+					emitLine(emit, line, ifs)
+				}
+			})
+		}
 	}, func(batch []c23Case) []*vc.Fail {
 		fails := make([]*vc.Fail, len(batch))
 		type src struct {
